@@ -8,6 +8,12 @@ CHECKS = {
         'technique': 'contract-based deductive verification (Verus on mechanically extracted real functions)',
     },
 }
+CHECKS['C05'] = {
+    'text': 'Verus proves on the extracted real text that every range bound built for a query (RecordsBounds::author_key/author_prefix/namespace/from_start/to_end, ByKeyBounds::new/namespace) contains exactly the ids the filter describes, for all namespaces, authors and byte-string keys (0xFF tails, empty keys included); Kani proves the byte-increment helper for all 32-byte ids. The offset/limit window of QueryIterator::next is out of reach and stated as not covered.',
+    'design_ref': 'DESIGN.md section 5, C05',
+    'note': 'Trusted: redb table order and range semantics (A-redb), Bytes as abstract byte string, increment_by_one for variable-length slices beyond the Kani bound; QueryIterator::next not covered.',
+    'technique': 'contract-based deductive verification (Verus on mechanically extracted real functions; Kani for byte-level leaf functions)',
+}
 NOT_APPLICABLE = {
     'C01': 'whole-session convergence of the generic async reconciliation routine (GAT iterators, three closures, FuturesOrdered) is a protocol proof over message histories, outside function contracts; Verus cannot take process_message, Kani cannot run the redb store or Bytes',
     'C04': 'statement over interleavings/histories of 2..5 replicas with lossy gossip and restarts; no function or data structure whose contract expresses it',
